@@ -250,7 +250,7 @@ func checkOutboundFlows(r *Result, prop string) []Violation {
 						cls = "redelivered-with-different-id"
 					}
 					out = append(out, viol(p, cls, fmt.Sprintf("conn %d (session present 1, session %q): unacknowledged message %q (packet id %d, %s before the disconnect) was not redelivered", rc.conn.Idx, rc.sess, m.payload, pid, how), q,
-						"was", how, "ver", verClass(rc.conn.Ver)))
+						"was", how, "ver", verClass(rc.conn.Ver), "rm_limited", sessRMLimited(r, rc.sess, rc.seq)))
 				}
 			} else {
 				if !rels[pid] {
@@ -270,7 +270,7 @@ func checkOutboundFlows(r *Result, prop string) []Violation {
 							}
 						}
 					}
-					out = append(out, viol(p, "pubrel-not-resent", fmt.Sprintf("conn %d: message %q (id %d) was past PUBREC (PUBREL before the disconnect: %s); PUBREL was not resent after reconnect", rc.conn.Idx, m.payload, pid, first), q, "ver", verClass(rc.conn.Ver), "pubrel", first))
+					out = append(out, viol(p, "pubrel-not-resent", fmt.Sprintf("conn %d: message %q (id %d) was past PUBREC (PUBREL before the disconnect: %s); PUBREL was not resent after reconnect", rc.conn.Idx, m.payload, pid, first), q, "ver", verClass(rc.conn.Ver), "pubrel", first, "rm_limited", sessRMLimited(r, rc.sess, rc.seq)))
 				}
 				if len(pubs[pid]) > 0 {
 					out = append(out, viol(p, "publish-resent-after-pubrec", fmt.Sprintf("conn %d: message %q (id %d) was past PUBREC but PUBLISH was sent again", rc.conn.Idx, m.payload, pid), pubs[pid][0].Seq))
@@ -291,6 +291,22 @@ func checkOutboundFlows(r *Result, prop string) []Violation {
 		}
 	}
 	return out
+}
+
+// sessRMLimited: did a connection of the session opened before seq declare a small Receive Maximum (so that the
+// broker's flow-control deferral can have been involved)?
+func sessRMLimited(r *Result, sess string, before int) string {
+	for _, c := range r.Ex.Conns {
+		if sessIDOfConn(c) != sess || c.openSeq >= before || c.Ver != 5 {
+			continue
+		}
+		if cp := connectPkt(c, r); cp != nil {
+			if p, ok := cp.Props.Get(refcodec.PReceiveMaximum); ok && p.Int <= 3 {
+				return "true"
+			}
+		}
+	}
+	return "false"
 }
 
 // hasBeenWritten: did the broker write a PUBLISH with this payload to a connection of the session before seq?
@@ -464,16 +480,15 @@ func checkC11(r *Result) []Violation {
 						if len(outstanding) > rm {
 							// which known mechanism, if any, can account for the excess?
 							explained := "none"
-							anyResent := false
-							for pid := range outstanding {
-								if resent[pid] {
-									anyResent = true
-								}
-							}
+							// every message resent on this connection was sent without consuming send quota, and its
+							// acknowledgement gives quota back: the quota stays too high by up to that many
+							anyResent := len(resent) >= len(outstanding)-rm
 							if p.Dup || anyResent {
 								explained = "resend" // in-flight messages are resent on reconnect regardless of, and without consuming, the quota
 							} else if inboundQos2Done >= len(outstanding)-rm {
 								explained = "inbound-qos2" // each completed inbound QoS 2 exchange also raises the send quota
+							} else if len(resent)+inboundQos2Done >= len(outstanding)-rm {
+								explained = "resend+inbound-qos2" // both mechanisms together account for the excess
 							}
 							out = append(out, viol("C11", "outbound-exceeds-receive-maximum", fmt.Sprintf("conn %d: %d unacknowledged QoS>0 PUBLISH packets in transit, client Receive Maximum is %d", c.Idx, len(outstanding), rm), it.seq,
 								"rm", fmt.Sprint(rm), "dup", fmt.Sprint(p.Dup), "explained", explained))
